@@ -479,7 +479,9 @@ Definition call_slot (c : call) : oid * fname := let '(_, x, f, _, _) := c in (x
 (* what one step guarantees *)
 Definition step_ok (st : state) (o : op) : Prop :=
   let '(st', ob) := step st o in
-  inv st' /\ ob_out ob = Ok /\
+  inv st' /\
+  (* nothing raises, except a registration that cannot be hooked: ValueError, and nothing changes *)
+  (ob_out ob = Ok \/ (op_slot o = None /\ ob_out ob = Raise ValueError /\ st' = st)) /\
   match notified st o with
   | None => ob_calls ob = []
   | Some (x, f) =>
@@ -662,7 +664,7 @@ Proof.
     rewrite SL in C.
     specialize (C (splice_old _ _ _) (splice_new _ _ _ _) (edge_acyclic_b_spec _ _ _ _ _ _ Ac)).
     destruct (change st1 c f (splice (h c f) i n [c']) (spliced_out (h c f) i n) [c'] false true) as [st' ob].
-    destruct C as [I [O [_ [_ Cs]]]]. cbn [ob_out ob_calls]. split; [exact I|]. split; [exact O|].
+    destruct C as [I [O [_ [_ Cs]]]]. cbn [ob_out ob_calls]. split; [exact I|]. split; [left; exact O|].
     destruct Cs as [ND [Sp Sl]]. split; [exact ND|]. split; [|exact Sl].
     intros k0. rewrite Sp. cbn [st_regs st_heap st_traits st1].
     split; intros [g0 [Hr Hm]]; exists g0; (split; [exact Hr|]).
@@ -672,7 +674,7 @@ Proof.
       apply negb_true_iff. apply (Fr (k0, g0) Hr). }
   12: { (* TouchItems *)
     destruct (st_heap st x f) eqn:Q.
-    2: { cbn. split; [exact Hinv|]. split; reflexivity. }
+    2: { cbn. split; [exact Hinv|]. split; [left; reflexivity|reflexivity]. }
     apply andb_true_iff in Hyp. destruct Hyp as [Fr Ac].
     set (c := st_next st) in *. set (fc := items_field f) in *.
     set (st1 := mkState (st_traits st) (upd (st_heap st) c fc items) (st_hooks st) (st_regs st) (S c)).
@@ -685,16 +687,16 @@ Proof.
     pose proof (change_ok st1 x f [c] [] [c] [] true false I1) as C. cbn [app] in C. rewrite SL in C.
     specialize (C (Permutation_refl _) (Permutation_refl _) (edge_acyclic_b_spec _ _ _ _ _ _ Ac)).
     destruct (change st1 x f [c] [] [c] true false) as [st' ob]. destruct C as [I [O [_ [_ Cs]]]].
-    cbn [ob_out ob_calls]. split; [exact I|]. split; [exact O|]. exact Cs. }
+    cbn [ob_out ob_calls]. split; [exact I|]. split; [left; exact O|]. exact Cs. }
   11: discriminate.
   10: { (* AddTrait *)
     destruct (st_traits st x f) eqn:Nt.
-    { cbn. split; [exact Hinv|]. split; reflexivity. }
+    { cbn. split; [exact Hinv|]. split; [left; reflexivity|reflexivity]. }
     cbn [orb] in Hyp. apply andb_true_iff in Hyp. destruct Hyp as [Nv W].
     assert (st_heap st x f = []) as Nv' by (destruct (st_heap st x f); [reflexivity|discriminate]).
     destruct (added_loop_spec (add_trait (st_traits st) x f) (st_heap st) x f Nv'
                 (on_slot (st_hooks st) x TA) [] (st_hooks st)) as [ks [E [ND Sp]]].
-    rewrite E. cbn [ob_out ob_calls]. split; [|split; [reflexivity|]].
+    rewrite E. cbn [ob_out ob_calls]. split; [|split; [left; reflexivity|]].
     - unfold inv. cbn [st_hooks st_traits st_heap st_regs]. rewrite addeds_of_on_slot.
       apply inv_add_trait_all; assumption.
     - rewrite map_call_key. split; [exact ND|]. split.
@@ -705,11 +707,15 @@ Proof.
         * intros I. split; [|intros []]. unfold users_on in *. apply in_flat_map in I. destruct I as [hk [Ihk Iu]].
           apply in_flat_map. exists hk. split; [|exact Iu]. apply (Permutation_in hk (Permutation_sym Hinv)). exact Ihk.
       + intros c Hc. apply in_map_iff in Hc. destruct Hc as [k [<- _]]. reflexivity. }
-  3: { rewrite Hyp. destruct (observe_all_spec k r gs st Hinv) as [A _]. split; [exact A|]. split; reflexivity. }
+  3: { destruct (forallb (fun g => walkable (st_traits st) (st_heap st) g r) gs).
+       - destruct (observe_all_spec k r gs st Hinv) as [A _]. split; [exact A|]. split; [left; reflexivity|reflexivity].
+       - split; [exact Hinv|]. split; [right; repeat split; reflexivity|reflexivity]. }
   3: { destruct (unobserve_all_spec k r gs st Hinv Hyp) as [st' [E [I' _]]]. rewrite E.
-       split; [exact I'|]. split; reflexivity. }
+       split; [exact I'|]. split; [left; reflexivity|reflexivity]. }
   - (* Observe *)
-    rewrite Hyp. split; [|split; reflexivity]. unfold inv in *. cbn [st_hooks st_heap st_regs].
+    destruct (walkable (st_traits st) (st_heap st) g r);
+      [|split; [exact Hinv|]; split; [right; repeat split; reflexivity|reflexivity]].
+    split; [|split; [left; reflexivity|reflexivity]]. unfold inv in *. cbn [st_hooks st_heap st_regs].
     unfold expected_all in *. rewrite flat_map_app. cbn [flat_map]. rewrite app_nil_r.
     apply Permutation_app; [exact Hinv|]. apply add_order_expected.
   - (* Unobserve *)
@@ -720,14 +726,14 @@ Proof.
       unfold expected_all at 1. cbn [flat_map]. fold (expected_all (st_traits st) (st_heap st) (remove_reg (k, r, g) (st_regs st))).
       rewrite Permutation_app_comm. apply Permutation_app_head.
       unfold expected_reg. cbn [fst snd]. symmetry. apply rem_order_expected. }
-    rewrite E. split; [exact PH|]. split; reflexivity.
+    rewrite E. split; [exact PH|]. split; [left; reflexivity|reflexivity].
   - (* SetRef *)
     destruct (list_eqb (st_heap st x f) v) eqn:Q.
-    + cbn. split; [exact Hinv|]. split; reflexivity.
+    + cbn. split; [exact Hinv|]. split; [left; reflexivity|reflexivity].
     + pose proof (change_ok st x f v (st_heap st x f) v [] false false Hinv) as C.
       cbn [app] in C. specialize (C (Permutation_refl _) (Permutation_refl _) (edge_acyclic_b_spec _ _ _ _ _ _ Hyp)).
       destruct (change st x f v (st_heap st x f) v false false) as [st' ob].
-      destruct C as [I [O [_ [_ Cs]]]]. split; [exact I|]. split; [exact O|]. exact Cs.
+      destruct C as [I [O [_ [_ Cs]]]]. split; [exact I|]. split; [left; exact O|]. exact Cs.
   - (* SetCont *)
     apply andb_true_iff in Hyp. destruct Hyp as [Fr Ac].
     set (c := st_next st) in *. set (fc := items_field f) in *.
@@ -743,7 +749,7 @@ Proof.
     cbn [app] in C. rewrite SL in C.
     specialize (C (Permutation_refl _) (Permutation_refl _) (edge_acyclic_b_spec _ _ _ _ _ _ Ac)).
     destruct (change st1 x f [c] (st_heap st x f) [c] prevented false) as [st' ob].
-    destruct C as [I [O [_ [_ Cs]]]]. cbn [ob_out ob_calls]. split; [exact I|]. split; [exact O|].
+    destruct C as [I [O [_ [_ Cs]]]]. cbn [ob_out ob_calls]. split; [exact I|]. split; [left; exact O|].
     destruct prevented; [exact Cs|].
     destruct Cs as [ND [Sp Sl]]. split; [exact ND|]. split; [|exact Sl].
     intros k0. rewrite Sp. cbn [st_regs st_heap st1].
@@ -760,23 +766,23 @@ Proof.
       assert (edge_acyclic (st_traits st) (st_heap st) (st_regs st) x f [st_next st]) as A by (apply edge_acyclic_b_spec; exact Hyp).
       specialize (C (Permutation_refl _) (Permutation_refl _) A).
       destruct (change st1 x f [st_next st] [] [st_next st] true false) as [st' ob].
-      destruct C as [I [O [_ [_ Cs]]]]. split; [exact I|]. split; [exact O|]. exact Cs.
-    + cbn. split; [exact Hinv|]. split; reflexivity.
+      destruct C as [I [O [_ [_ Cs]]]]. split; [exact I|]. split; [left; exact O|]. exact Cs.
+    + cbn. split; [exact Hinv|]. split; [left; reflexivity|reflexivity].
   - (* Splice *)
     destruct (spliced_out (st_heap st c f) i n ++ vs) eqn:Q.
-    + cbn. split; [exact Hinv|]. split; reflexivity.
+    + cbn. split; [exact Hinv|]. split; [left; reflexivity|reflexivity].
     + pose proof (change_ok st c f (splice (st_heap st c f) i n vs) (spliced_out (st_heap st c f) i n) vs
                    (firstn i (st_heap st c f) ++ skipn n (skipn i (st_heap st c f))) false true Hinv
                    (splice_old _ _ _) (splice_new _ _ _ _) (edge_acyclic_b_spec _ _ _ _ _ _ Hyp)) as C.
       destruct (change st c f (splice (st_heap st c f) i n vs) (spliced_out (st_heap st c f) i n) vs false true)
         as [st' ob].
-      destruct C as [I [O [_ [_ Cs]]]]. split; [exact I|]. split; [exact O|]. exact Cs.
+      destruct C as [I [O [_ [_ Cs]]]]. split; [exact I|]. split; [left; exact O|]. exact Cs.
   - (* Probe *)
     pose proof (change_ok st x 0 (st_heap st x 0) [] [] (st_heap st x 0) false false Hinv) as C.
     rewrite app_nil_r in C.
     specialize (C (Permutation_refl _) (Permutation_refl _) (edge_acyclic_b_spec _ _ _ _ _ _ Hyp)).
     destruct (change st x 0 (st_heap st x 0) [] [] false false) as [st' ob].
-    destruct C as [I [O [_ [_ Cs]]]]. split; [exact I|]. split; [exact O|]. exact Cs.
+    destruct C as [I [O [_ [_ Cs]]]]. split; [exact I|]. split; [left; exact O|]. exact Cs.
 Qed.
 
 (* ---------- histories ---------- *)
@@ -807,13 +813,15 @@ Proof.
   apply step_spec; [|exact Ho]. apply hooks_are_expected_lemma; assumption.
 Qed.
 
+(* no MUTATION raises (a registration that cannot be hooked raises ValueError and changes nothing) *)
 Lemma run_all_ok : forall ops st, inv st -> hyps st ops = true ->
-  Forall (fun p : op * obs => ob_out (snd p) = Ok) (run st ops).
+  Forall (fun p : op * obs => ob_out (snd p) = Ok \/ (op_slot (fst p) = None /\ ob_out (snd p) = Raise ValueError))
+         (run st ops).
 Proof.
   induction ops as [|o ops IH]; intros st I Hy; cbn [run]; [constructor|].
   cbn [hyps] in Hy. apply andb_true_iff in Hy. destruct Hy as [H1 H2].
   pose proof (step_spec st o I H1) as S. unfold step_ok in S.
-  destruct (step st o) as [st' ob]. cbn [fst] in H2. constructor; [cbn; tauto|]. apply IH; tauto.
+  destruct (step st o) as [st' ob]. cbn [fst] in H2. constructor; [cbn [fst snd]; tauto|]. apply IH; tauto.
 Qed.
 
 (* reference counts are path multiplicities *)
@@ -1037,12 +1045,14 @@ Proof.
     - intros _ k g Hr Hm. apply Sp'. exists g. tauto.
     - cbn [classify]. rewrite Nt. discriminate.
     - apply forallb_map_calls. intros k. cbn [call_ok]. rewrite !Nat.eqb_refl. reflexivity. }
-  3: { rewrite Hyp. destruct (observe_all_spec k r gs st Hinv) as [_ [B [C D]]]. cbn [fst snd ob_delta ob_out law_regs law_traits].
+  3: { destruct (forallb (fun g => walkable (st_traits st) (st_heap st) g r) gs);
+         [|cbn; repeat split; reflexivity].
+       destruct (observe_all_spec k r gs st Hinv) as [_ [B [C D]]]. cbn [fst snd ob_delta ob_out law_regs law_traits].
        split; [reflexivity|]. split; [cbn; symmetry; exact B|]. split; symmetry; assumption. }
   3: { destruct (unobserve_all_spec k r gs st Hinv Hyp) as [st' [E [_ [B [C D]]]]]. rewrite E.
        cbn [fst snd ob_delta ob_out law_regs law_traits]. split; [reflexivity|]. split; [cbn; symmetry; exact B|].
        split; symmetry; assumption. }
-  - (* Observe *) rewrite Hyp. cbn. repeat split; reflexivity.
+  - (* Observe *) destruct (walkable (st_traits st) (st_heap st) g r); cbn; repeat split; reflexivity.
   - (* Unobserve *)
     pose proof (remove_reg_perm _ _ Hyp) as PR.
     destruct (remove_all_complete (rem_order (st_traits st) (st_heap st) (k, r) g r) (st_hooks st)
@@ -1262,3 +1272,111 @@ Lemma failed_registration_all_lemma st k r gs :
   forallb (fun g => walkable (st_traits st) (st_heap st) g r) gs = false ->
   step st (ObserveAll k r gs) = (st, mkObs (Raise ValueError) [] []).
 Proof. intros W. cbn [step]. rewrite W. reflexivity. Qed.
+
+(* ---------- several maintainers on the slot, one of which cannot hook the new value ---------- *)
+Lemma maintain_fails t h strict k c rem add H K y ys :
+  Permutation H (K ++ sumexp t h k [c] rem) -> add = y :: ys -> walkable t h c y = false ->
+  exists H1, maintain t h strict k c rem add H = (H1, false) /\ Permutation H1 K.
+Proof.
+  intros P -> W. unfold maintain. destruct (rem_objs_complete t h k c rem H K P) as [H1 [E1 P1]].
+  rewrite E1. cbn [orb add_objs_w]. rewrite W. exists H1. split; [reflexivity|exact P1].
+Qed.
+
+Lemma S_of_app_M t h M1 M2 ys : S_of t h (M1 ++ M2) ys = S_of t h M1 ys ++ S_of t h M2 ys.
+Proof. unfold S_of. apply flat_map_app. Qed.
+
+Lemma notify_loop_fail_at t h strict rem add k c y ys :
+  add = y :: ys -> walkable t h c y = false ->
+  forall ns seen H K M1 M2,
+    maints_of ns = M1 ++ (k, c) :: M2 ->
+    (forall kc z, In kc M1 -> In z add -> walkable t h (snd kc) z = true) ->
+    Permutation H (K ++ S_of t h (maints_of ns) rem) ->
+    exists H' ks, notify_loop t h strict ns seen rem add H = (H', ks, false)
+      /\ Permutation H' (K ++ S_of t h M1 add ++ S_of t h M2 rem).
+Proof.
+  intros EA NW. induction ns as [|[k0|k0 c0|k0 c0] ns IH]; intros seen H K M1 M2 EM W P;
+    cbn [maints_of flat_map app] in EM, P; try fold (maints_of ns) in EM, P.
+  - destruct M1; discriminate.
+  - cbn [notify_loop]. destruct (mem_key k0 seen).
+    + apply (IH seen H K M1 M2 EM W P).
+    + destruct (IH (k0 :: seen) H K M1 M2 EM W P) as [H' [ks [E PH]]]. rewrite E. eexists. eexists.
+      split; [reflexivity|exact PH].
+  - cbn [notify_loop].
+    change (S_of t h ((k0, c0) :: maints_of ns) rem) with (sumexp t h k0 [c0] rem ++ S_of t h (maints_of ns) rem) in P.
+    destruct M1 as [|kc1 M1'].
+    + cbn [app] in EM. injection EM as Ek Ec EM2. subst k0 c0.
+      destruct (maintain_fails t h strict k c rem add H (K ++ S_of t h (maints_of ns) rem) y ys) as [H1 [E1 P1]];
+        [|exact EA|exact NW|].
+      { rewrite P. rewrite <- app_assoc. apply Permutation_app_head. apply Permutation_app_comm. }
+      rewrite E1. exists H1, []. split; [reflexivity|]. rewrite P1. rewrite EM2. reflexivity.
+    + cbn [app] in EM. injection EM as Ekc EM2. subst kc1.
+      destruct (maintain_complete t h strict k0 c0 rem add H (K ++ S_of t h (maints_of ns) rem)) as [H1 [E1 P1]].
+      { intros z Iz. apply (W (k0, c0) z (or_introl eq_refl) Iz). }
+      { rewrite P. rewrite <- app_assoc. apply Permutation_app_head. apply Permutation_app_comm. }
+      rewrite E1.
+      destruct (IH seen H1 (K ++ sumexp t h k0 [c0] add) M1' M2 EM2) as [H' [ks [E PH]]].
+      { intros kc z I Iz. apply (W kc z (or_intror I) Iz). }
+      { rewrite P1. rewrite <- !app_assoc. apply Permutation_app_head. apply Permutation_app_comm. }
+      exists H', ks. split; [exact E|]. rewrite PH.
+      change (S_of t h ((k0, c0) :: M1') add) with (sumexp t h k0 [c0] add ++ S_of t h M1' add).
+      rewrite <- !app_assoc. reflexivity.
+  - cbn [notify_loop]. apply (IH seen H K M1 M2 EM W P).
+Qed.
+
+Lemma change_fails_at st o fo news removed added keep prevented strict M1 k c M2 y ys :
+  inv st ->
+  Permutation (st_heap st o fo) (keep ++ removed) -> Permutation news (keep ++ added) ->
+  fo <> TA ->
+  (forall kc, In kc (occ_all (st_traits st) (st_heap st) (st_regs st) o fo) ->
+     forall z, In z (st_heap st o fo) \/ In z news -> visits (st_traits st) (st_heap st) (snd kc) z o fo = false) ->
+  maint_on (st_hooks st) o fo = M1 ++ (k, c) :: M2 ->
+  (forall kc z, In kc M1 -> In z added -> walkable (st_traits st) (upd (st_heap st) o fo news) (snd kc) z = true) ->
+  added = y :: ys -> walkable (st_traits st) (upd (st_heap st) o fo news) c y = false ->
+  let h' := upd (st_heap st) o fo news in
+  let t := st_traits st in
+  ob_out (snd (change st o fo news removed added prevented strict)) = Raise ValueError
+  /\ st_heap (fst (change st o fo news removed added prevented strict)) = h'
+  /\ Permutation (st_hooks (fst (change st o fo news removed added prevented strict))
+                  ++ S_of t h' M1 removed ++ S_of t h' [(k, c)] removed)
+                 (st_hooks st ++ S_of t h' M1 added).
+Proof.
+  intros Hinv Hold Hnew NT Hac HM W1 EA NW. cbv zeta.
+  set (h := st_heap st) in *. set (t := st_traits st) in *. set (rs := st_regs st) in *.
+  set (H := st_hooks st) in *. set (h' := upd h o fo news) in *.
+  assert (Permutation H (expected_all t h rs)) as HI by exact Hinv.
+  set (M := maint_on H o fo) in *. set (O := occ_all t h rs o fo) in *.
+  assert (Permutation M O) as MO.
+  { subst M O. rewrite <- maint_on_expected_all. unfold maint_on. apply flat_map_perm. exact HI. }
+  assert (forall kc, In kc M -> In kc O) as MinO by (intros kc; apply Permutation_in; exact MO).
+  assert (forall z, In z removed -> In z (h o fo)) as RinO.
+  { intros z Iz. apply (Permutation_in z (Permutation_sym Hold)). apply in_or_app. right. exact Iz. }
+  assert (S_of t h' M removed = S_of t h M removed) as FR.
+  { unfold S_of. apply flat_map_ext_In. intros kc Hkc. unfold sumexp.
+    apply flat_map_ext_In. intros z Iz. cbn [flat_map]. f_equal.
+    apply expected_frame. apply Hac; [apply MinO; exact Hkc|left; apply RinO; exact Iz]. }
+  set (K := skeleton_all t h rs o fo ++ S_of t h O keep).
+  assert (Permutation H (K ++ S_of t h' M removed)) as SPLIT.
+  { rewrite FR. rewrite (S_of_perm_M t h M O removed MO). subst K. rewrite HI.
+    rewrite (expected_split_all t h rs o fo).
+    - fold O. rewrite (S_of_perm_ys t h O _ _ Hold). rewrite S_of_app. rewrite app_assoc. reflexivity.
+    - intros kc Hkc z Hz. apply Hac; [exact Hkc|left; exact Hz]. }
+  assert (maints_of (on_slot H o fo) = M1 ++ (k, c) :: M2) as MS by (rewrite maints_of_on_slot; exact HM).
+  assert (Permutation H (K ++ S_of t h' (maints_of (on_slot H o fo)) removed)) as SPLIT'
+    by (rewrite maints_of_on_slot; exact SPLIT).
+  destruct (notify_loop_fail_at t h' strict removed added k c y ys EA NW (on_slot H o fo) [] H K M1 M2 MS W1 SPLIT')
+    as [H' [ks [EL PH]]].
+  unfold change. fold h t H h'. rewrite EL. rewrite andb_false_r.
+  cbn [notify_loop fst snd ob_out st_heap st_hooks andb].
+  assert (existsb (fun kc : hkey * graph => existsb (fun z => negb (walkable t h' (snd kc) z)) added) (maint_on H o fo)
+          = true) as EX.
+  { apply existsb_exists. exists (k, c). split; [fold M; rewrite HM; apply in_or_app; right; left; reflexivity|].
+    rewrite EA. cbn [existsb snd]. rewrite NW. reflexivity. }
+  rewrite EX. split; [reflexivity|]. split; [reflexivity|].
+  rewrite PH. rewrite SPLIT. fold M. rewrite HM. rewrite !S_of_app_M.
+  change ((k, c) :: M2) with ([(k, c)] ++ M2). rewrite (S_of_app_M t h' [(k, c)] M2 removed).
+  rewrite <- !app_assoc. apply Permutation_app_head.
+  (* S(M1,add) ++ S(M2,rem) ++ S(M1,rem) ++ S(kc,rem)  ==  S(M1,rem) ++ S(kc,rem) ++ S(M2,rem) ++ S(M1,add) *)
+  rewrite (Permutation_app_comm (S_of t h' M1 added)). rewrite <- !app_assoc.
+  rewrite (Permutation_app_comm (S_of t h' M2 removed)). rewrite <- !app_assoc.
+  do 2 apply Permutation_app_head. apply Permutation_app_comm.
+Qed.
